@@ -51,7 +51,41 @@ inline Path64 gen_one(Rng& g, int64_t R, std::string& kind) {
   }
 }
 
+// Two long, nearly parallel edges that cross within a couple of units of a scanline created by an unrelated, far-away
+// vertex, inside a tall scanbeam: the crossing is then found one scanbeam late and has to be clamped into the scanbeam
+// (ClipperBase::AddNewIntersectNode), a branch that ordinary random inputs reach only with thin scanbeams.
+inline GpInput gen_nearparallel(Rng& g) {
+  GpInput in;
+  int64_t H = g.range(300, 4000);
+  in.R = 8 * H;
+  int64_t ox = g.range(-H, H), oy = g.range(-H, H);
+  int64_t w1 = g.range(-H, H);
+  int64_t d0 = g.range(1, H / 3), d1 = -g.range(1, H / 3);
+  if (g.coin()) { d0 = -d0; d1 = -d1; }
+  // e1: (0,-H) -> (w1,H) ; e2: (d0,-H) -> (w1+d1,H) ; they cross at height yc = -H + 2H*d0/(d0-d1)
+  long double yc = -(long double)H + 2.0L * H * (long double)d0 / (long double)(d0 - d1);
+  Path64 A{Point64(ox + 0, oy - H), Point64(ox + w1, oy + H), Point64(ox - 4 * H - g.range(0, H), oy + g.range(-H / 2, H / 2))};
+  Path64 B{Point64(ox + d0, oy - H), Point64(ox + w1 + d1, oy + H), Point64(ox + 4 * H + g.range(0, H), oy + g.range(-H / 2, H / 2))};
+  int64_t s = g.pick(std::vector<int64_t>{-2, -1, 1, 2});
+  int64_t Y0 = oy + (int64_t)std::llround((double)yc) + s;
+  int64_t cx = ox + 7 * H;
+  Path64 C{Point64(cx, Y0), Point64(cx + H / 3 + 7, Y0 - H / 2 - g.range(0, H / 4)), Point64(cx + H / 2 + 11, Y0 + H / 2 + g.range(0, H / 4))};
+  if (g.coin()) std::reverse(A.begin(), A.end());
+  if (g.coin()) std::reverse(B.begin(), B.end());
+  in.subj = {A, C};
+  in.clip = {B};
+  if (g.coin()) std::swap(in.subj[0], in.clip[0]);
+  in.kind = "nearparallel";
+  return in;
+}
+
+inline GpInput gen_gp_plain(Rng& g);
 inline GpInput gen_gp(Rng& g) {
+  if (g.chance(15)) return gen_nearparallel(g);
+  return gen_gp_plain(g);
+}
+
+inline GpInput gen_gp_plain(Rng& g) {
   GpInput in;
   in.R = pick_radius(g);
   int ns = (int)g.range(1, 3), nc = (int)g.range(0, 2);
